@@ -211,15 +211,20 @@ theorem eqS_symm (s : Style) (a b : Int) (e : FP f) :
   · simp only [eqS, Gen.eq_absolute]
     rw [abs_sub_comm a b]
 
-/-- the product of two non-negative finite numbers is at least zero (a finite non-negative number or `+∞`) -/
-theorem zero_le_mul (m k : Int) (hm : 0 ≤ m) (hk : 0 ≤ k) : (.fin 0 : FP f) ≤ (.fin m : FP f) * .fin k := by
-  show le (.fin 0) (rnd f (m * k) f.sh) = true
-  have h : ¬ (m * k < 0) := by
-    have := Int.mul_nonneg hm hk; omega
+theorem mul_def (a b : Int) : (.fin a : FP f) * .fin b = rnd f (a * b) f.sh := rfl
+
+/-- a rounded non-negative number is at least zero (a finite non-negative number or `+∞`) -/
+theorem zero_le_rnd (z : Int) (s : Nat) (hz : 0 ≤ z) : (.fin 0 : FP f) ≤ rnd f z s := by
+  show le (.fin 0) (rnd f z s) = true
+  have h : ¬ (z < 0) := by omega
   simp only [rnd, h, decide_false, ofMag]
   split
   · simp [le]
   · simp [le]
+
+/-- the product of two non-negative finite numbers is at least zero, never NaN -/
+theorem zero_le_mul (m k : Int) (hm : 0 ≤ m) (hk : 0 ≤ k) : (.fin 0 : FP f) ≤ (.fin m : FP f) * .fin k := by
+  rw [mul_def]; exact zero_le_rnd _ _ (Int.mul_nonneg hm hk)
 
 /-- tolerant equality is reflexive in the rounding arithmetic for a finite non-negative epsilon -/
 theorem eqS_refl (s : Style) (a m : Int) (hm : 0 ≤ m) : eqS s (.fin a : FP f) (.fin a) (.fin m) = true := by
@@ -235,14 +240,16 @@ theorem eqS_refl (s : Style) (a m : Int) (hm : 0 ≤ m) : eqS s (.fin a : FP f) 
       have : ¬ ((FP.fin (if a < 0 then -a else a) : FP f) < .fin (if a < 0 then -a else a)) := by
         show ¬ lt _ _ = true; simp [lt]
       simp [this]
-    rw [this]; exact zero_le_mul m _ hm hk
+    rw [this, mul_def]; apply zero_le_rnd
+    first | exact Int.mul_nonneg hm hk | exact Int.mul_nonneg hk hm
   · simp only [eqS, Gen.eq_relativeStrong, hsub, habs0, absK_fin, decide_eq_true_eq]
     have : minK (.fin (if a < 0 then -a else a) : FP f) (.fin (if a < 0 then -a else a)) = .fin (if a < 0 then -a else a) := by
       unfold minK
       have : ¬ ((FP.fin (if a < 0 then -a else a) : FP f) < .fin (if a < 0 then -a else a)) := by
         show ¬ lt _ _ = true; simp [lt]
       simp [this]
-    rw [this]; exact zero_le_mul m _ hm hk
+    rw [this, mul_def]; apply zero_le_rnd
+    first | exact Int.mul_nonneg hm hk | exact Int.mul_nonneg hk hm
   · simp only [eqS, Gen.eq_absolute, hsub, habs0, decide_eq_true_eq]
     show le (.fin 0) (.fin m) = true
     simp [le, hm]
